@@ -157,6 +157,20 @@ def api_call(api, ptype, k):
         tebd = oqupy.PtTebd(mps, chain, [identity_pt(max(k, 0) + 1), None],
                             oqupy.PtTebdParameters(dt=DT, order=2, epsrel=1e-9), dynamics_sites=[0])
         thunk = lambda: tebd.compute(N + 1 if k >= 0 else 1, progress_type=ptype)
+    elif api in ("PtTebd:multithread", "PtTebd:multiprocess"):
+        # a tensor-shape fault that surfaces inside a worker of the library's pool (step k + 1)
+        chain = oqupy.SystemChain([2, 2, 2])
+        for i in range(3):
+            chain.add_site_hamiltonian(i, 0.5 * SZ)
+        chain.add_nn_hamiltonian(0, 0.7 * SX, SX)
+        chain.add_nn_hamiltonian(1, 0.7 * SX, SX)
+        pt = identity_pt(N + 1)
+        if k >= 0:
+            pt.set_mpo_tensor(min(k, N), np.ones((1, 1, 4, 9)))
+        mps = oqupy.AugmentedMPS([rho0.copy(), rho0.copy(), rho0.copy()])
+        tebd = oqupy.PtTebd(mps, chain, [None, pt, None], oqupy.PtTebdParameters(dt=DT, order=2, epsrel=1e-9),
+                            dynamics_sites=[0], backend_config={"parallel": api.split(":")[1]})
+        thunk = lambda: tebd.compute(N + 1, progress_type=ptype)
     elif api == "compute_correlations":
         s = oqupy.TimeDependentSystem(ham)
         arm.append(ham)
@@ -170,7 +184,7 @@ def api_call(api, ptype, k):
 
 
 APIS = ["compute_dynamics", "compute_dynamics_with_field", "state_gradient:hamiltonian", "state_gradient:target",
-        "Tempo", "MeanFieldTempo", "PtTempo", "GibbsTempo", "PtTebd", "compute_correlations"]
+        "Tempo", "MeanFieldTempo", "PtTempo", "GibbsTempo", "PtTebd", "compute_correlations", "PtTebd:multithread"]
 MANUAL_SITES = {"compute_dynamics": "compute_dynamics", "compute_dynamics_with_field": "compute_dynamics_with_field",
                 "state_gradient:hamiltonian": "compute_gradient_and_dynamics",
                 "state_gradient:target": "compute_gradient_and_dynamics"}
@@ -189,14 +203,24 @@ def fault_job(job):
         thunk = api_call(api, ptype, k)
         registry.clear()
         buf = io.StringIO()
+        import threading
+        import time
+        before = set(threading.enumerate())
+        kept = None
         with contextlib.redirect_stdout(buf):
             try:
                 thunk()
             except Exception as ex:  # pylint: disable=broad-except
                 raised = type(ex).__name__
+                kept = ex            # what a logging framework / pytest.raises does: the exception stays referenced
         armed = sum(1 for t in registry if t.state == "armed")
         if armed:
             out.append({"what": "orphan-timer", "armed": armed, "raised": raised, "timers": len(registry)})
+        time.sleep(0.3)
+        alive = [t.name for t in threading.enumerate() if t not in before and t.is_alive()]
+        if alive:
+            out.append({"what": "live-thread-after-call", "threads": alive[:4], "raised": raised})
+        del kept
     except Exception as ex:  # pylint: disable=broad-except
         import traceback
         out.append({"what": "harness", "detail": traceback.format_exc()[-500:]})
@@ -220,10 +244,12 @@ real_stdout = sys.stdout
 sys.stdout = out
 thunk = c19.api_call(%(api)r, "bar", %(k)d)
 raised = None
+kept = None
 try:
     thunk()
 except Exception as ex:
     raised = type(ex).__name__
+    kept = ex      # the exception object stays referenced (logging framework, pytest.raises, ...)
 n0 = out.n
 time.sleep(2.5)
 alive = [t.name for t in threading.enumerate() if t is not threading.main_thread() and t.is_alive()]
